@@ -10,6 +10,29 @@ EmitX == Complete => PrintT(<<"PROG", ToJson([Prog EXCEPT !.natives = IF @ = <<>
                               LET t == RegTab(Prog, Env(Prog, <<>>)) IN
                               Len(t[CHOOSE r \in FundNames(Prog) : TRUE].elems)>>)
 
+\* the explicit spelling of a program (reference version of expand_subcircuits on the AST): every subcircuit
+\* block becomes a sequential block that begins with prepare_all and ends with measure_all
+PM(name) == [k |-> "gate", v |-> name, cls |-> "?", args |-> <<>>]
+\* (written in a sequential context, `prepare_all; B; measure_all` are three statements of that context: spliced)
+RECURSIVE RefExpandSubStmt(_)
+RECURSIVE RefExpandSubSeq(_)
+RefExpandSubSeq(ss) ==
+  IF ss = <<>> THEN <<>>
+  ELSE LET h == Head(ss) IN
+       (IF h.k = "blk" /\ h.sub
+        THEN <<PM("prepare_all")>> \o RefExpandSubSeq(h.body) \o <<PM("measure_all")>>
+        ELSE <<RefExpandSubStmt(h)>>) \o RefExpandSubSeq(Tail(ss))
+RefExpandSubStmt(s) ==
+  CASE s.k = "blk" -> [s EXCEPT !.body = RefExpandSubSeq(s.body)]
+    [] s.k = "loop" -> [s EXCEPT !.body = RefExpandSubStmt(s.body)]
+    [] OTHER -> s
+RefExpandSub(p) == [p EXCEPT !.body = RefExpandSubSeq(p.body),
+                             !.macros = [j \in DOMAIN p.macros |-> [p.macros[j] EXCEPT !.body = RefExpandSubStmt(@)]]]
+\* spec-level theorem: the explicit spelling has the same execution tree
+ExplicitSameTree == Complete => ExecTree(RefExpandSub(Prog), <<>>) = XTree
+EmitExplicit == Complete => PrintT(<<"XPROG", ToJson([Prog EXCEPT !.natives = IF @ = <<>> THEN <<>> ELSE <<"exact">>]),
+                                     ToJson([RefExpandSub(Prog) EXCEPT !.natives = IF @ = <<>> THEN <<>> ELSE <<"exact">>])>>)
+
 \* every unrolled pair of an accepted program that contains no loop around a section boundary is a flat
 \* pair; the number of visits of subcircuit k is the number of times its pair occurs unrolled
 VisitsWellFormed == Complete =>
